@@ -452,6 +452,14 @@ func (f *verifFile) Read(b []byte) (int, error) {
 	return f.File.Read(b)
 }
 
+func (f *verifFile) Sync() error {
+	if f == nil {
+		return os.ErrInvalid
+	}
+	verifStep(false, "sync", f.File.Name())
+	return f.File.Sync()
+}
+
 func (f *verifFile) Name() string { return f.File.Name() }
 
 // ---------- panic classification (shared with the replay driver) ----------
